@@ -4,7 +4,7 @@ from verif.core import Infra
 META = dict(
     technique="TLC exploration of SchemeRouting.tla (Client per-scheme HostClient maps, HostClient scheme check, connection pools tagged plain/TLS, redirects across schemes, LBClient over HostClients) with invariants; allowed per-request logs per scenario replayed on real Client / HostClient / LBClient objects over a fake network with plaintext and TLS servers (B1)",
     design_ref="DESIGN.md §4 C21",
-    text="SchemeRouting.tla models Route (Client.Do: map m/ms by scheme, HostClient created with Addr host:80/443 and IsTLS), Check (HostClient refuses scheme # IsTLS), Write (idle connection of that HostClient or a new one, TLS iff IsTLS) and Respond (redirect scripts drive the next URL through the same entry). TLC enumerates every scenario of N requests over 2 hosts x 2 schemes with Do and DoRedirects (scripts up to 2 hops) for a Client, a plain and a TLS HostClient and two LBClients, checks HttpsOnTLS / OwnHost / HttpOnPlain / RefuseMismatch / PoolPure (and that a HostClient without the check violates them), and prints the per-request logs; grouped by scenario they are the allowed outcomes (LBClient choices are nondeterministic in the spec). Each scenario is replayed: port-443 servers speak TLS with a run-time self-signed certificate; the harness server records dial address, first byte (0x16 = TLS), SNI, raw plaintext bytes and decoded requests. The property is judged on the raw observations (https tag in any plaintext byte log, http tag decoded from TLS, wrong host/SNI/port); the log is compared with the allowed set.",
+    text="SchemeRouting.tla models Route (Client.Do: map m/ms by scheme, HostClient created with Addr host:80/443 and IsTLS), Check (HostClient refuses scheme # IsTLS), Write (idle connection of that HostClient or a new one, TLS iff IsTLS) and Respond (redirect scripts drive the next URL through the same entry). TLC enumerates every scenario of N requests over 2 hosts x 2 schemes with Do and DoRedirects (scripts up to 2 hops) for a Client, a plain and a TLS HostClient and two LBClients, checks HttpsOnTLS / OwnHost / HttpOnPlain / RefuseMismatch / PoolPure (and that a HostClient without the check violates them), and prints the per-request logs; grouped by scenario they are the allowed outcomes (LBClient choices are nondeterministic in the spec). A second run enumerates scenarios whose request objects are DERIVED (CopyTo copies of built requests before/after URI() was looked at; requests received by a live plain/TLS server and forwarded as they are or as CopyTo copies, without / with a request-line rewrite, URI() touched or not): the spec routes them like their source. Each scenario is replayed: port-443 servers speak TLS with a run-time self-signed certificate; the harness server records dial address, first byte (0x16 = TLS), SNI, raw plaintext bytes and decoded requests. The property is judged on the raw observations (https tag in any plaintext byte log, http tag decoded from TLS, wrong host/SNI/port); the log is compared with the allowed set.",
     note="Trusted: crypto/tls, the harness's own HTTP decoder, in-memory transport. Sequential scenarios (one request at a time per client object); concurrency of the pools is C18's subject. A HostClient talks to its Addr whatever the URL's host is (by design), so 'own host' is checked for Client only.",
 )
 
@@ -15,9 +15,17 @@ def run(ctx):
         raise Infra("self-test failed: a HostClient without the scheme check does not violate HttpsOnTLS/HttpOnPlain")
     n, ms = ctx.pick((3, 1), (4, 2))
     _, beh = ctx.tlc_gen("client", "SchemeRoutingGen", "SchemeRoutingGen.cfg", workers=4, timeout=3000,
-                         consts=dict(ENTRIES="AllEntries", MAXREQS=n, MAXSCRIPT=ms))
+                         consts=dict(ENTRIES="AllEntries", MAXREQS=n, MAXSCRIPT=ms, VIAS="DirectOnly"))
     if not beh:
         raise Infra("SchemeRoutingGen produced no behaviours")
+    # derived requests (CopyTo copies, requests received by a live server and forwarded): every way
+    # of obtaining the request object, for Client and the two HostClients
+    n2, ms2 = ctx.pick((2, 1), (3, 1))
+    _, beh2 = ctx.tlc_gen("client", "SchemeRoutingGen", "SchemeRoutingGen.cfg", workers=4, timeout=3000,
+                          consts=dict(ENTRIES="DirectEntries", MAXREQS=n2, MAXSCRIPT=ms2, VIAS="DerivedVias"))
+    if not beh2:
+        raise Infra("SchemeRoutingGen produced no derived-request behaviours")
+    beh += beh2
     if not ctx.quick:
         ctx.tlc_mc("client", "SchemeRoutingGen", "SchemeRoutingMC.cfg", workers=4, timeout=3000,
                    consts=dict(HOSTSEQ="ThreeHosts", MAXREQS=3, MAXSCRIPT=2))
